@@ -290,3 +290,39 @@ PROPS["C12"] = dict(
 )
 
 NOT_YET = {}
+
+PROPS["C13"] = dict(
+    technique="PARTIAL proof. A translator (tools/skel: go/ast + go/types) regenerates on every run, from tlcp/conn.go, dtlcp/conn.go, tlcp/session.go, "
+              "pa/switch_server_conn.go and what they call, the lock / atomic / blocking-call / field-access skeleton of every exported method; generic Coq theorems "
+              "over a small-step interleaving semantics of threads and non-reentrant mutexes (ordered locking => no lock cycle; lockset => no two conflicting accesses "
+              "simultaneously enabled) are instantiated on that skeleton by vm_compute through decidable checkers proved sound; three small semantic models (write path, "
+              "handshake latch, Close interlock); a stress harness built with the Go race detector whose observations are judged in Coq",
+    level_text="PARTIAL (the Go memory model, the scheduler and the runtime below sync / sync/atomic are not modelled). Proved in Coq, for every number of goroutines and every "
+               "interleaving of the machine: no lock cycle when locks are taken in rank order handshakeMutex < in < out < leaves, and the generated skeleton obeys that order "
+               "(C13_lock_order); no two conflicting field accesses simultaneously enabled when they share a mutex, and the generated skeleton's accesses do, except the two "
+               "documented exemptions (handshake phase vs. after observed completion; dtlcp remoteAddr) and the fields reported as findings (C13_lockset, "
+               "C13_findings_are_exactly_the_failures); all transport writes of a Write happen in one critical section of the write-half mutex (C13_write_section) and under "
+               "that shape the peer stream is a concatenation of whole payloads each exactly once in every interleaving (C13_writes_whole); all Handshake callers observe the "
+               "latched result and the handshake function runs at most once (C13_handshake_same_result); the datagram Close touches no mutable state before its wait and no "
+               "call is inside afterwards (C13_close_waits, C13_close_interlock). Observed on the real library under the race detector with GOMAXPROCS 1..16, seeds and injected "
+               "yields: streams, Handshake results, stuck goroutines, interlock word, race reports - all judged by the Coq predicate.",
+    level_note="NOT modelled / not proved: the Go memory model (that atomics and mutexes give the happens-before edges the handshake-phase exemption relies on), the scheduler "
+               "(fairness, the busy-wait in dtlcp Close terminating), net / crypto / gmsm internals (their race freedom rests on the detector runs only), context cancellation "
+               "in HandshakeContext. Trusted: the translator (that it reports every lock operation, atomic operation and field access of the listed files; linearisation of "
+               "branches is exact only because every Lock is unconditional, which the checker enforces; recursion unrolled once; handshake code outside the four files is "
+               "summarised as a de-duplicated event set), Coq kernel + vm_compute, the race detector, the harness. F16, F17, F28 are known findings (lockset failures, each "
+               "confirmed by the race detector); F29 (deadline setters cancel the dtlcp handshake's retransmission timer) is a known finding of the stress harness.",
+    code_names={1: "stream-not-whole-payloads-each-exactly-once", 2: "handshake-callers-disagree", 3: "goroutine-stuck-after-close", 4: "panic",
+                5: "write-failed-or-short", 6: "datagram-close-returned-with-calls-inside", 7: "call-made-no-progress-until-close", 10: "data-race", 20: "field-accessed-without-common-lock",
+                "crash": "crash", "hang": "hang"},
+    assumptions=["Go's sync.Mutex and sync/atomic operations synchronise as the Go memory model says (used by the handshake-phase exemption)",
+                 "a dtlcp connection is constructed with a non-nil remote address (remoteAddr exemption)",
+                 "the translator's skeleton is faithful to the sources (trusted base)"],
+    trusted=["tools/skel (Go AST -> Coq skeleton translator, stdlib go/ast go/parser go/types only)", "the Go race detector (go build -race) and GORACE report format",
+             "verif hooks VerifActiveCall (tlcp, dtlcp), VerifNewSession / VerifMaster / VerifSessionID", "UDP over 127.0.0.1 for the datagram stack; tk.StreamPair for the stream stack"],
+    race_binary=True,
+    partial=True,
+    not_modelled=["Go memory model", "goroutine scheduler / fairness", "runtime below sync and sync/atomic", "net, crypto, gmsm internals", "context cancellation path of HandshakeContext"],
+)
+
+NOT_YET = {}
